@@ -1,5 +1,18 @@
 // Shared helpers for jsim: seeded PRNG, canonical JSON, worker pool.
 import { fork } from "node:child_process";
+import fs from "node:fs";
+
+// CPU seconds of a process (user + system): stall detection counts CPU, not wall time, so that a
+// worker starved by other load is not mistaken for one in an endless loop.
+function cpuSecs(pid) {
+  try {
+    const s = fs.readFileSync(`/proc/${pid}/stat`, "utf8");
+    const f = s.slice(s.lastIndexOf(")") + 2).split(" ");
+    return (Number(f[11]) + Number(f[12])) / 100;
+  } catch {
+    return null;
+  }
+}
 
 export function fnv32(str) {
   let h = 0x811c9dc5;
@@ -108,7 +121,9 @@ export function pool(script, args, indices, workers, onResult, onStall = null, s
         }
       };
       const timer = setInterval(() => {
-        if (busy && Date.now() - busy.since > stallMs) {
+        const cpuNow = busy ? cpuSecs(child.pid) : null;
+        const burnt = busy && cpuNow != null && busy.cpu != null ? (cpuNow - busy.cpu) * 1000 : Infinity;
+        if (busy && Date.now() - busy.since > stallMs && (burnt > stallMs || Date.now() - busy.since > stallMs * 30)) {
           clearInterval(timer);
           stalls++;
           const b = busy;
@@ -122,7 +137,7 @@ export function pool(script, args, indices, workers, onResult, onStall = null, s
       child.on("message", (m) => {
         if (m.ready) return feed();
         if (m.start !== undefined) {
-          busy = { index: m.start, run: m.run, since: Date.now() };
+          busy = { index: m.start, run: m.run, since: Date.now(), cpu: cpuSecs(child.pid) };
           return;
         }
         if (m.fatal) {
@@ -148,14 +163,19 @@ export function pool(script, args, indices, workers, onResult, onStall = null, s
 export function alone(script, args, run, limitMs) {
   return new Promise((resolve) => {
     const child = fork(script, ["worker", ...args], { stdio: ["ignore", "ignore", "inherit", "ipc"] });
-    const t = setTimeout(() => {
-      child.kill("SIGKILL");
-      resolve({ stalled: true });
-    }, limitMs);
+    const t0 = Date.now();
+    const t = setInterval(() => {
+      const cpu = cpuSecs(child.pid);
+      if ((cpu != null && cpu * 1000 > limitMs) || Date.now() - t0 > limitMs * 20) {
+        clearInterval(t);
+        child.kill("SIGKILL");
+        resolve({ stalled: true });
+      }
+    }, 250);
     child.on("message", (m) => {
       if (m.ready) return child.send({ index: -1, run });
       if (m.start !== undefined) return;
-      clearTimeout(t);
+      clearInterval(t);
       child.send({ done: true });
       resolve(m.fatal ? { fatal: m.fatal } : { result: m.result });
     });
